@@ -10,6 +10,8 @@ use crate::tree::{self, CmpOpts, Kind, Node, Snapshot, child_of, gen_content, is
 
 const NAMES12: &[&str] = &[
     "a", "ab", "a.b", "a b", "a-", "é", "éa", "é.b", "é b", "日", "日本", "ñ", "ña", "b", "a~",
+    // names that need escaping in the JSON of an index hunk
+    "a\"q", "a\\s", "a\nl", "\u{1}c",
 ];
 
 fn gen_case_tree(rng: &mut Rng) -> Snapshot {
